@@ -73,7 +73,8 @@ def build_message(spec):
         if spec.get("code", 272) == 272:
             m = CreditControlRequest()
             if not spec.get("no_session"):
-                m.session_id = "s;%d" % e2e
+                # the harness application raises on requests whose session id starts with "raise;"
+                m.session_id = ("raise;%d" if spec.get("raises") else "s;%d") % e2e
             if spec.get("host", "x") is not None:
                 m.origin_host = spec.get("host", "cli0.example.net").encode()
             m.origin_realm = b"example.net"
@@ -117,7 +118,6 @@ def build_message(spec):
 def abstract(wire):
     """The node's view of a received frame, as the record `msg` of Model/Node.v (Coq text) + a dict."""
     from diameter.message import Message
-    from diameter.node._helpers import validate_message_avps
     m = Message.from_bytes(wire)
     h = m.header
     code = h.command_code
@@ -135,9 +135,17 @@ def abstract(wire):
     o = pres("origin_host")
     dr = pres("destination_realm")
     rc = pres("result_code", False)
+    # required AVPs that are missing: decided from the WIRE (reference parser) and the class's definition table, not by
+    # the implementation's own validator -- absent on the wire and not filled in by the class on its own
     missing = []
-    if h.is_request:
-        missing = [(a.code, a.vendor_id) for a in validate_message_avps(m)]
+    if h.is_request and getattr(type(m), "avp_def", None):
+        import implobs
+        present = {(c, v) for c, _f, v, _p in implobs.ref_parse_avps(wire[20:])}
+        fresh = type(m)()
+        for d_ in type(m).avp_def:
+            if d_.is_required and (d_.avp_code, d_.vendor_id) not in present and getattr(fresh, d_.attr_name, None) is None \
+                    and (d_.avp_code, d_.vendor_id) not in missing:
+                missing.append((d_.avp_code, d_.vendor_id))
     slot = False
     try:
         ans = m.to_answer()
@@ -153,7 +161,8 @@ def abstract(wire):
                 auth.append(v.auth_application_id)
             if getattr(v, "acct_application_id", None) is not None:
                 acct.append(v.acct_application_id)
-    d = dict(cmd=cmd or f"App {code}", req=h.is_request, p=h.is_proxyable, e=h.is_error, t=h.is_retransmit,
+    tag = 1 if (h.is_request and str(getattr(m, "session_id", "") or "").startswith("raise;")) else 0
+    d = dict(tag=tag, cmd=cmd or f"App {code}", req=h.is_request, p=h.is_proxyable, e=h.is_error, t=h.is_retransmit,
              app=h.application_id, hbh=h.hop_by_hop_identifier, e2e=h.end_to_end_identifier,
              origin=o, drealm=dr, result=rc, missing=missing, slot=slot, auth=auth, acct=acct)
     return d
@@ -175,10 +184,10 @@ def coq_msg(d):
     miss = "[" + "; ".join(f"({c}, {v})" for c, v in d["missing"]) + "]"
     return ("{| m_cmd := %s; m_req := %s; m_p := %s; m_e := %s; m_t := %s; m_app := %d; m_hbh := %d; m_e2e := %d; "
             "m_origin := %s; m_drealm := %s; m_result := %s; m_missing := %s; m_has_failed_avp_slot := %s; "
-            "m_auth := %s; m_acct := %s; m_tag := 0 |}") % (
+            "m_auth := %s; m_acct := %s; m_tag := %d |}") % (
         coq_cmd(d["cmd"]), b(d["req"]), b(d["p"]), b(d["e"]), b(d["t"]), d["app"], d["hbh"], d["e2e"],
         coq_pres_s(d["origin"]), coq_pres_s(d["drealm"]), coq_pres_z(d["result"]), miss, b(d["slot"]),
-        vlib.zlist(d["auth"]), vlib.zlist(d["acct"]))
+        vlib.zlist(d["auth"]), vlib.zlist(d["acct"]), d.get("tag", 0))
 
 
 def b(x):
@@ -205,6 +214,18 @@ def coq_omsg(d):
         coq_cmd(d["cmd"]), b(d["req"]), d["app"], d["hbh"], d["e2e"],
         "None" if d["result"] is None else f"(Some {d['result']})",
         "[" + "; ".join(f"({c}, {v})" for c, v in d["failed"]) + "]"))
+
+
+def _idkey(k):
+    """key of a transaction table -> (hbh, e2e); tolerant of other key shapes so that a changed implementation is
+    reported as a disagreement, not as a harness crash"""
+    try:
+        if isinstance(k, tuple):
+            return (int(k[0]), int(k[1]))
+        parts = [int(x) for x in str(k).split(":")]
+        return (parts[0], parts[1]) if len(parts) >= 2 else (parts[0], -1)
+    except Exception:   # noqa
+        return (-1, -1)
 
 
 # ------------------------------------------------------------------ running on the implementation
@@ -235,6 +256,8 @@ class Run:
 
             def handle_request(self, message):
                 run.delivered.append((self.idx, message))
+                if str(getattr(message, "session_id", "") or "").startswith("raise;"):
+                    raise RuntimeError("application handler failed")
 
             def handle_answer(self, message):
                 run.unexpected.append((self.idx, message))
@@ -434,8 +457,8 @@ class Run:
             half=sorted(idmap.get(i, 99) for i in node._half_ready_connections),
             sockpeers=sorted(fmap.get(f, 99) for f in node.socket_peers),
             peer_waiting=sorted((h, sorted((k if isinstance(k, tuple) else (k, 0)) for k in d)) for h, d in node._peer_waiting_answer.items()),
-            app_waiting=sorted(tuple(int(x) for x in k.split(":")) for k in node._app_waiting_answer),
-            origin_waiting=sorted(tuple(int(x) for x in k.split(":")) for k in node._origin_waiting_answer),
+            app_waiting=sorted(_idkey(k) for k in node._app_waiting_answer),
+            origin_waiting=sorted(_idkey(k) for k in node._origin_waiting_answer),
             sent_answers=sorted((o.decode() if isinstance(o, bytes) else ("<none>" if o is None else str(o)), list(d)) for o, d in node._sent_answers.items()),
             ready=[a.is_ready.is_set() for a in self.apps],
             answer_waiting=[sorted(a._answer_waiting) for a in self.apps],
